@@ -15,6 +15,8 @@ CONFIGS = {
     "assert": {"features": ["glam-assert"]},
     "assert-scalar": {"features": ["glam-assert", "scalar-math"]},
     "assert-libm": {"features": ["glam-assert", "libm"]},
+    "avx2": {"rustflags": "-C target-feature=+avx2,+fma"},
+    "fastmath-fma": {"features": ["fast-math"], "rustflags": "-C target-feature=+fma"},
     "cuda": {"features": ["cuda"]},
     "cuda-scalar": {"features": ["cuda", "scalar-math"]},
     "asan": {"toolchain": "nightly", "rustflags": "-Zsanitizer=address -Cforce-frame-pointers=yes", "target": X86},
@@ -40,7 +42,7 @@ def lanes(prop, quick_cfgs, thorough_cfgs, engine="e_lanes", extra=None):
 
 
 PLAN = {
-    "C01": lanes("C01", ["sse2", "scalar", "fma", "libm"], ["coresimd", "dbg"]),
+    "C01": lanes("C01", ["sse2", "scalar", "fma", "libm"], ["coresimd", "dbg", "avx2"]),
     "C02": lanes("C02", ["sse2", "scalar", "coresimd", "libm"], ["fma"], engine="e_geom"),
     "C03": lanes("C03", ["sse2", "scalar", "coresimd"], ["fma"], engine="e_geom"),
     "C04": lanes("C04", ["sse2", "scalar", "coresimd"], ["fma"], engine="e_geom"),
@@ -49,7 +51,7 @@ PLAN = {
     "C09": lanes("C09", ["sse2", "scalar", "coresimd", "libm", "assert"], ["assert-scalar"], engine="e_geom"),
     "C10": lanes("C10", ["sse2", "scalar", "coresimd", "assert"], ["assert-scalar"], engine="e_geom"),
     "C11": lanes("C11", ["sse2", "scalar", "coresimd", "assert"], ["assert-scalar"], engine="e_geom"),
-    "C12": lanes("C12", ["sse2", "scalar", "coresimd", "libm"], [], engine="e_geom"),
+    "C12": lanes("C12", ["sse2", "scalar", "coresimd", "libm", "fastmath-fma"], [], engine="e_geom"),
     "C07": {"runs": [
         {"engine": "e_api", "config": c, "mode": "trace", "tiers": t, "shards": {"quick": 1, "thorough": 1}, "args": ["--trace", "{wdir}/trace.{config}.bin"]}
         for c, t in (("sse2", Q), ("scalar", Q), ("fma", Q), ("coresimd", T), ("native", T))
@@ -105,7 +107,7 @@ PLAN = {
     "C13": lanes("C13", ["sse2", "dbg"], ["scalar"]),
     "C14": lanes("C14", ["sse2", "scalar"], ["coresimd"]),
     "C15": lanes("C15", ["sse2", "scalar", "coresimd"], []),
-    "C16": lanes("C16", ["sse2", "scalar", "coresimd"], []),
+    "C16": lanes("C16", ["sse2", "scalar", "coresimd", "avx2"], []),
     "C17": lanes("C17", ["sse2", "scalar", "coresimd"], ["cuda", "cuda-scalar"]),
 }
 for _p in ("C13",):
